@@ -156,6 +156,46 @@ example : matchRoot exPattern
     { exIR with ops := exIR.ops.map fun x => if x.id = 12 then { x with operands := [.res 11 0, .res 10 0] } else x } 12 = none := by
   decide
 
+/-! ## the header of `pdl.pattern` and attribute/property shadowing (added for C27-F)
+
+"…for the same pattern…": a single pattern is applied; its `benefit` (priority among SEVERAL patterns; 0 = lowest, not
+"never applies") and its symbol name (a label, after which the conversion names the rewriter function) are not part
+of what the pattern denotes.  In the specification this holds by construction — `PatternOp.matchRoot/rewriteAt/driveW`
+have no access to the header — and both real paths are run under generated headers (benefit 0, 16-bit boundary values,
+names `@matcher`, `@rewriters`, `@pdl_generated_rewriter`, …) against this header-blind denotation. -/
+
+/-- **header_irrelevant**: match decision and binding, the single rewrite, and greedy application under any walk order
+of a `pdl.pattern` op are the same for every benefit and every symbol name. -/
+theorem header_irrelevant (h h' : Header) (p : Pattern) (rw : List Action) (ir : IR) :
+    (∀ o, (PatternOp.mk h p rw).matchRoot ir o = (PatternOp.mk h' p rw).matchRoot ir o) ∧
+    (∀ o, (PatternOp.mk h p rw).rewriteAt ir o = (PatternOp.mk h' p rw).rewriteAt ir o) ∧
+    (∀ rev fuel, (PatternOp.mk h p rw).driveW rev fuel ir = (PatternOp.mk h' p rw).driveW rev fuel ir) :=
+  ⟨fun _ => rfl, fun _ => rfl, fun _ _ => rfl⟩
+
+/-- non-vacuity: `x + 0 → x` declared with `benefit(0)` and named `@matcher` rewrites the addition like the corpus
+pattern (`benefit(2)`, `@x_plus_zero`) does -/
+example : (PatternOp.mk { benefit := 0, sym := some 7 } exPattern exRewrite).rewriteAt exIR 12 =
+    rewriteAt exPattern exRewrite exIR 12 ∧ rewriteAt exPattern exRewrite exIR 12 ≠ .nomatch :=
+  ⟨rfl, by decide⟩
+
+/-- **property_shadows_attribute**: the named attribute of an operation is its PROPERTY when it has a property and an
+attribute of the same name (`Operation.get_attr_or_prop`, MLIR's `Operation::getAttr`; the payload encoding lists the
+properties before the attributes): the shadowed attribute's value plays no part. -/
+theorem property_shadows_attribute (x : Op) (n : Nat) (pv : Attr) (rest : List (Nat × Attr)) (h : x.attrs = (n, pv) :: rest) :
+    x.attr n = some pv := by
+  simp [Op.attr, h]
+
+/-- the constant whose PROPERTY `value` is `0 : i32` matches although an attribute `value = 4 : i32` is present too;
+the one whose property is `4 : i32` does not match although its attribute is `0 : i32` -/
+example :
+    (matchRoot exPattern
+      { exIR with ops := exIR.ops.map fun x => if x.id = 11 then
+          { x with attrs := [(0, { val := 0, ty := some 0 }), (0, { val := 1, ty := some 0 })] } else x } 12).isSome = true ∧
+    matchRoot exPattern
+      { exIR with ops := exIR.ops.map fun x => if x.id = 11 then
+          { x with attrs := [(0, { val := 1, ty := some 0 }), (0, { val := 0, ty := some 0 })] } else x } 12 = none := by
+  decide
+
 /-! ## known finding (known_findings.json, call site ConvertPDLToPDLInterpPass):
 `%t = pdl.type; %a = pdl.attribute : %t; pdl.operation "test.op" {"a" = %a}` on `"test.op"() {a = "s"}`.
 The specification (and the interpreted path) reject — a string attribute has no type that could be bound to `%t` —
